@@ -398,6 +398,51 @@ func c08Scenarios(tier string) []*world.Scenario {
 			}
 		}
 	}
+	// long streams (the inbound ring is 1 KiB by default; its cursors advance and wrap only when the leftover never
+	// drains): 70 requests of varying size, ~2.5 KB, cut so that NO read ends on a request boundary: one cut inside every
+	// request / every 2nd / every 3rd request, and two cuts inside every request (each request spans three reads)
+	{
+		var reqs []Req
+		for j := 0; j < 70; j++ {
+			switch j % 5 {
+			case 0:
+				reqs = append(reqs, GetReq(keysA[j%12]))
+			case 1:
+				reqs = append(reqs, SetReq(keysB[j%12], strings.Repeat(string(rune('a'+j%26)), 5+j%23)))
+			case 2:
+				reqs = append(reqs, MGetReq(keysA[j%12], keysB[(j+1)%12]))
+			case 3:
+				reqs = append(reqs, SetReq(keysC[j%12], "v\r\n"+strings.Repeat("z", j%31)))
+			default:
+				reqs = append(reqs, GetReq(keysC[j%12]))
+			}
+		}
+		st := c08stream{"long-70", reqs}
+		for _, mode := range []string{"every1", "every2", "every3", "twice"} {
+			var cuts []int
+			off := 0
+			for j, r := range reqs {
+				L := len(r.Bytes)
+				switch {
+				case mode == "twice":
+					c1 := 1 + (j*7)%(L/2)
+					c2 := L/2 + 1 + (j*5)%(L/2-1)
+					cuts = append(cuts, off+c1, off+c2)
+				case mode == "every1" || (mode == "every2" && j%2 == 0) || (mode == "every3" && j%3 == 0):
+					cuts = append(cuts, off+1+(j*7)%(L-1))
+				}
+				off += L
+			}
+			for _, cap := range []int{64, 4096, 65536} {
+				if !thorough && cap == 4096 && mode != "twice" {
+					continue
+				}
+				sc := c08Scenario(st, cuts, cap, "unaligned-"+mode)
+				sc.Family = "long-stream"
+				out = append(out, sc)
+			}
+		}
+	}
 	// another client died inside a request (its prefix parked in the inbound buffer) before this client's stream arrives
 	{
 		ab := world.Cmd("set", keysA[0], strings.Repeat("A", 34))
@@ -441,7 +486,7 @@ func init() {
 		Scenarios: c06Scenarios, BudgetQuick: 100, BudgetThorough: 1500,
 		Assumptions: []string{"pool keys are brace-free or carry well-formed hash tags (slot function itself is C05's business)"}})
 	register(&Check{ID: "C08", Level: "model_checking",
-		Rule:      "request streams (1-3 requests: GET, SET with CRLF/binary/empty/70-byte arguments, split MGET/DEL/MSET, PING; thorough adds EVAL and a 400-byte SET) x read-buffer capacities {8, 32, 65536} x segmentations {unsegmented, byte-at-a-time, EVERY single cut, EVERY pair of cuts for streams up to 60 (thorough 100) bytes}; plus a pipeline of three small SETs whose total exceeds a 64-byte size limit while each request is within it; plus the first four streams under single cuts after ANOTHER client died (FIN/RST) with a proper prefix of a request parked in its inbound buffer; oracle: same requests recognised (per-node command multiset), same replies in order, connection never closed, never an error caused by a cut; distinct = observable outcomes",
+		Rule:      "request streams (1-3 requests: GET, SET with CRLF/binary/empty/70-byte arguments, split MGET/DEL/MSET, PING; thorough adds EVAL and a 400-byte SET) x read-buffer capacities {8, 32, 65536} x segmentations {unsegmented, byte-at-a-time, EVERY single cut, EVERY pair of cuts for streams up to 60 (thorough 100) bytes}; plus a 70-request stream of ~2.5 KB (the 1 KiB inbound ring wraps) cut so that no read ever ends on a request boundary (a cut inside every / every 2nd / every 3rd request, two cuts inside every request) at caps 64/4096/65536; plus a pipeline of three small SETs whose total exceeds a 64-byte size limit while each request is within it; plus the first four streams under single cuts after ANOTHER client died (FIN/RST) with a proper prefix of a request parked in its inbound buffer; oracle: same requests recognised (per-node command multiset), same replies in order, connection never closed, never an error caused by a cut; distinct = observable outcomes",
 		Scenarios: c08Scenarios, BudgetQuick: 100, BudgetThorough: 1500,
 		Assumptions: []string{"default (synchronous) schedule per segmentation: C08 varies the cuts, C01/C09 vary the interleavings", "PING is only placed where no forwarded request precedes it, so the ordering property C01 is not re-judged here"}})
 }
